@@ -107,6 +107,8 @@ class Evaluator:
                 elif e[0] == "as":
                     if isinstance(v, Opt):
                         v = (v.val,) if v.some else v
+                elif e[0] == "subslice":
+                    v = v[e[1]:(len(v) - e[2]) if e[3] else e[2]]
                 else:
                     raise Stuck("ref path %r" % (e,))
             return v
@@ -124,6 +126,10 @@ class Evaluator:
                 i = len(s) - i
             c = s[i]
             return ord(c) if isinstance(c, str) else c
+        if k == "proj" and isinstance(t[2], tuple) and t[2][0] == "subslice":
+            s = self.ev(t[1])
+            e = t[2]
+            return s[e[1]:(len(s) - e[2]) if e[3] else e[2]]
         if k == "agg":
             if t[1] == "adt" and t[2] in ("std::option::Option",):
                 return Opt(t[3] == "Some", self.ev(agg_get(t, "0")) if t[3] == "Some" else None)
